@@ -2,7 +2,7 @@ import N0Verif.Proofs.XPathTermPot
 /-!
   C04, termination of the resolver — part 4: **the dict-side search ends** (`term_main`).
 
-  For every token list without `new()`, on a tree whose keys are plain names,
+  For every token list, on a tree whose keys are plain names,
   `findD` run with fuel `≥ termPot H W toks (height of the current node) (pieces of found)` does not
   answer `OutOfFuel` and returns the root unchanged.  Strong induction on the fuel; the `[*]`, `*` and
   implicit fan-out loops are the macro steps of part 1, the re-resolutions of `found` (empty token
@@ -20,7 +20,6 @@ structure TermCtx (H W : Nat) (root : Val) : Prop where
 
 def TermS2 (H W : Nat) (root : Val) (sp : Pos) (rl : Bool) (fuel : Nat) : Prop :=
   ∀ (entry : Bool) (toks : List Str) (par : PRef) (found : Str) (g : Nat),
-    (∀ t ∈ toks, NoNew t) →
     SafeRef PlainKey root par → TermRef H W root par → TermFound found g →
     termPot H W toks (termHgtRef root par) g ≤ fuel →
     TermOut (fun _ => True) root (findD fuel root sp false entry toks par rl found)
@@ -75,7 +74,7 @@ theorem term_star_loop (sp : Pos) (rl : Bool) (f : Nat)
     (ih : ∀ m, m < f → TermS2 H W root sp rl m)
     (par' : PRef) (c : Cls) (xs : List Val) (hpv' : valOf root par' = some (.list c xs))
     (hK : SafeRef PlainKey root par') (hB : TermRef H W root par')
-    (rest : List Str) (hrest : ∀ t ∈ rest, NoNew t) (found : Str) (g : Nat) (hfd : TermFound found g)
+    (rest : List Str) (found : Str) (g : Nat) (hfd : TermFound found g)
     (all : List Str) (hc : Nat) (hhc : termHgt (.list c xs) - 1 ≤ hc)
     (hf : termPot H W rest hc (g + 1) + xs.length + 2 ≤ f) :
     TermOut (fun _ => True) root (starIdx f root sp false xs.length 0 rest par' rl found [] Option.none all) := by
@@ -96,7 +95,7 @@ theorem term_star_loop (sp : Pos) (rl : Bool) (f : Nat)
   · rw [he]; exact ⟨rfl, trivial⟩
   · rw [he]
     have hch := termHgtRef_child (root := root) (r := par'') (.idx n) (hB _ hpv') hpv'
-    refine ih f'' (by omega) false rest _ _ (g + 1) hrest
+    refine ih f'' (by omega) false rest _ _ (g + 1)
       (SafeRef_child hK _) (TermRef_child hB _) (hfd.idx _) ?_
     have := termPot_mono H W rest _ hc (g + 1) (g + 1) (show termHgtRef root (childRef root par'' (.idx n)) ≤ hc by omega)
       (Nat.le_refl _)
@@ -104,7 +103,7 @@ theorem term_star_loop (sp : Pos) (rl : Bool) (f : Nat)
 
 theorem term_main_step (ctx : TermCtx H W root) (sp : Pos) (rl : Bool) (fuel : Nat)
     (ih : ∀ m, m < fuel → TermS2 H W root sp rl m) : TermS2 H W root sp rl fuel := by
-  intro entry toks par found g htoks hparK hparB hfd hfuel
+  intro entry toks par found g hparK hparB hfd hfuel
   have hW := ctx.hW
   obtain ⟨f, rfl⟩ : ∃ f, fuel = f + 1 := ⟨fuel - 1, by have := termPot_pos H W toks (termHgtRef root par) g; omega⟩
   cases toks with
@@ -122,8 +121,6 @@ theorem term_main_step (ctx : TermCtx H W root) (sp : Pos) (rl : Bool) (fuel : N
         (term_R_enough ctx.hgt sp hl (by omega))
       exact this.mono (fun _ _ => trivial)
   | cons tok rest =>
-    have htok : NoNew tok := htoks tok (by simp)
-    have hrest : ∀ t ∈ rest, NoNew t := fun t ht => htoks t (by simp [ht])
     have hC := termPot_mono H W rest
     cases hpv : valOf root par with
     | none =>
@@ -145,7 +142,6 @@ theorem term_main_step (ctx : TermCtx H W root) (sp : Pos) (rl : Bool) (fuel : N
         exact TermOut_err (term_okErr_split hsplit)
       | ok p =>
         obtain ⟨name, idx⟩ := p
-        obtain ⟨hnameN, hidxN⟩ := splitNameIndex_ok (P := NoNew) htok hsplit
         simp only [termPot, termTokPot, hsplit] at hfuel
         -- implicit fan-out over a list: the same token list one level lower
         have hfan : ∀ (cls : Cls) (xs : List Val), pv = .list cls xs → ∀ (M : Nat),
@@ -158,7 +154,7 @@ theorem term_main_step (ctx : TermCtx H W root) (sp : Pos) (rl : Bool) (fuel : N
             (by omega) (Nat.le_refl _)
           intro j hj f' hf' hf'F
           obtain ⟨h2, h3, h4⟩ := hchild (.idx j)
-          exact ih f' (by omega) false (tok :: rest) _ _ (g + 1) htoks h2 h3
+          exact ih f' (by omega) false (tok :: rest) _ _ (g + 1) h2 h3
             (hfd.idx (j : Int)) (by have := hM _ h4; omega)
         by_cases hne : name = []
         · -- ####### a token without a name #######
@@ -171,7 +167,6 @@ theorem term_main_step (ctx : TermCtx H W root) (sp : Pos) (rl : Bool) (fuel : N
               Bool.and_self, if_true]
             exact TermOut_err (by decide)
           | str s =>
-            simp only [PIdx] at hidxN
             by_cases hs0 : s = []
             · subst hs0
               rw [findD]
@@ -179,8 +174,30 @@ theorem term_main_step (ctx : TermCtx H W root) (sp : Pos) (rl : Bool) (fuel : N
                 Bool.not_false, Bool.and_self, if_true]
               exact TermOut_err (by decide)
             · have hs0' : s.isEmpty = false := isEmpty_false_of_ne hs0
-              have hnew : s ≠ sNew := fun h => SafePred.notNew (P := NoNew) (h ▸ hidxN)
               have hb1 := termZ_b1 H W (termHgt pv) (termPot H W rest) g
+              by_cases hnew : s = sNew
+              · -- `[new()]`: `found` is resolved again, then the search ends (fix C04-a: nothing is written)
+                subst hnew
+                have hZR := termZ_R H W (termHgt pv) (termPot H W rest) g
+                obtain ⟨ht, _, hl⟩ := hfd.tokens
+                have hS1 := term_plain H W hW root sp rl f false (tokenize found) (.at sp) slash 0 ht (fun _ => rfl)
+                  (TermRef_at ctx.hgt ctx.wd sp) (SafeRef_at ctx.plain sp) (TermFound_slash 0)
+                  (term_R_enough ctx.hgt sp hl (by omega))
+                rw [findD]
+                simp only [Bool.false_and, Bool.false_eq_true, if_false, hpv, hsplit, List.isEmpty_nil, Idx.truthy, hs0',
+                  Bool.not_false, Bool.and_false, Bool.not_true, if_true]
+                cases hR : findD f root sp false false (tokenize found) (.at sp) rl slash with
+                | error e => rw [hR] at hS1; exact hS1
+                | ok pr =>
+                  obtain ⟨root', cur⟩ := pr
+                  rw [hR] at hS1
+                  obtain ⟨hroot', _⟩ := hS1
+                  subst hroot'
+                  simp only
+                  repeat' split
+                  all_goals first
+                    | exact ⟨rfl, trivial⟩
+                    | exact TermOut_err (by decide)
               by_cases hstar : s = ['*']
               · -- `[*]`
                 subst hstar
@@ -191,14 +208,14 @@ theorem term_main_step (ctx : TermCtx H W root) (sp : Pos) (rl : Bool) (fuel : N
                 · cases pv <;> simp only [isList, Bool.false_eq_true] at hl
                   rename_i cls xs
                   have hlen : xs.length ≤ W := by have := hb.wd; simp only [termWd] at this; omega
-                  exact term_star_loop sp rl f (fun m hm => ih m (by omega)) par cls xs hpv hparK hparB rest hrest found g hfd
+                  exact term_star_loop sp rl f (fun m hm => ih m (by omega)) par cls xs hpv hparK hparB rest found g hfd
                     _ (termHgt (Val.list cls xs)) (by omega) (by omega)
                 · have hl' : isList pv = false := by simpa using hl
                   have hw : valOf root (.wrap par) = some (Val.list .plain [pv]) := by simp [valOf, hpv]
                   have hgoal : TermOut (fun _ => True) root
                       (starIdx f root sp false 1 0 rest (.wrap par) rl found [] Option.none (tok :: rest)) :=
                     term_star_loop sp rl f (fun m hm => ih m (by omega)) (.wrap par) .plain [pv] hw
-                      (SafeRef_wrap hparK) (TermRef_wrap hW hparB hpv hl') rest hrest found g hfd _ (termHgt pv)
+                      (SafeRef_wrap hparK) (TermRef_wrap hW hparB hpv hl') rest found g hfd _ (termHgt pv)
                       (by simp [termHgt, termHgtL]) (by simp only [List.length_singleton]; omega)
                   cases pv <;> first | (simp [isList] at hl'; done) | exact hgoal
               · -- pure index
@@ -231,13 +248,11 @@ theorem term_main_step (ctx : TermCtx H W root) (sp : Pos) (rl : Bool) (fuel : N
                         split
                         · rename_i c hc; exact (hchild' n c hc).1
                         · omega
-                      refine ih f (by omega) false rest _ _ (g + 1) hrest
+                      refine ih f (by omega) false rest _ _ (g + 1)
                         (SafeRef_child hK' _) (TermRef_child hpar' _) (hfd.idx i) ?_
                       have := hC _ _ (g + 1) (g + 1) hch (Nat.le_refl _)
                       omega
           | cond k op v =>
-            simp only [PIdx] at hidxN
-            obtain ⟨hkN, hop, hvN⟩ := hidxN
             by_cases htext : k = sTextFn
             · -- `text()` condition on the node itself
               subst htext
@@ -260,7 +275,7 @@ theorem term_main_step (ctx : TermCtx H W root) (sp : Pos) (rl : Bool) (fuel : N
                     · split at heq
                       · cases heq; exact TermOut_err (by decide)
                       · cases heq
-                  · refine ih f (by omega) false rest par found g hrest hparK hparB hfd ?_
+                  · refine ih f (by omega) false rest par found g hparK hparB hfd ?_
                     rw [termHgtRef_some hpv]
                     have := termZ_ge H W (termHgt pv) hC g
                     omega
@@ -289,13 +304,7 @@ theorem term_main_step (ctx : TermCtx H W root) (sp : Pos) (rl : Bool) (fuel : N
                   simp only
                   have hkP : PlainKey k := term_lookup_key (by simpa [SafeKeys] using hpvK) hl
                   obtain ⟨h2, h3, h4⟩ := hchild (.key k)
-                  refine ih f (by omega) false _ _ _ (g + 1) ?_ h2 h3 (hfd.key hkP) ?_
-                  · intro t ht
-                    simp only [List.mem_cons] at ht
-                    rcases ht with rfl | rfl | ht
-                    · exact P_textTok hop hvN
-                    · exact P_upTok
-                    · exact hrest t ht
+                  refine ih f (by omega) false _ _ _ (g + 1) h2 h3 (hfd.key hkP) ?_
                   · simp only [termPot]
                     rw [termTokPot_up]
                     have hU := termU0_mono H W hC
@@ -358,13 +367,7 @@ theorem term_main_step (ctx : TermCtx H W root) (sp : Pos) (rl : Bool) (fuel : N
                       simp only [htr, if_true, termU] at hfuel
                       split
                       · rename_i s _
-                        simp only [PIdx] at hidxN
-                        refine ih f (by omega) false _ _ _ (g + 2 * H) ?_ hnK hnB hfd' ?_
-                        · intro t ht
-                          simp only [List.mem_cons] at ht
-                          rcases ht with rfl | ht
-                          · exact P_bracket hidxN
-                          · exact hrest t ht
+                        refine ih f (by omega) false _ _ _ (g + 2 * H) hnK hnB hfd' ?_
                         · simp only [termPot]
                           have e1 := termTokPot_bracket H W s hC (termHgtRef root' nxt) (g + 2 * H)
                           have e2 := termZ_mono_h H W _ hC (g + 2 * H) hhn
@@ -372,7 +375,7 @@ theorem term_main_step (ctx : TermCtx H W root) (sp : Pos) (rl : Bool) (fuel : N
                       · exact TermOut_err (by decide)
                     · rename_i htr
                       simp only [htr, Bool.false_eq_true, if_false, termU0] at hfuel
-                      refine ih f (by omega) false _ _ _ (g + 2 * H) hrest hnK hnB hfd' ?_
+                      refine ih f (by omega) false _ _ _ (g + 2 * H) hnK hnB hfd' ?_
                       have := hC _ _ (g + 2 * H) (g + 2 * H) hhn (Nat.le_refl _)
                       omega
                   · split
@@ -417,7 +420,7 @@ theorem term_main_step (ctx : TermCtx H W root) (sp : Pos) (rl : Bool) (fuel : N
                 | some cv =>
                   simp only [List.isEmpty_cons, Bool.false_and, Bool.false_eq_true, if_false, termKeyCont]
                   obtain ⟨h2, h3, h4⟩ := hchild (.key k)
-                  refine ih f'' (by omega) false (tok :: rest) _ _ (g + 1) htoks h2 h3 (hfd.key hkP) ?_
+                  refine ih f'' (by omega) false (tok :: rest) _ _ (g + 1) h2 h3 (hfd.key hkP) ?_
                   simp only [termPot, termTokPot, hsplit, hne0, Bool.false_eq_true, if_false, hup]
                   have := termN_mono_h H W _ hC (g + 1) h4
                   omega
@@ -434,30 +437,18 @@ theorem term_main_step (ctx : TermCtx H W root) (sp : Pos) (rl : Bool) (fuel : N
                   · cases idx with
                     | none =>
                       simp only [termKeyCont]
-                      refine ih f (by omega) false rest _ _ (g + 1) hrest h2 h3 (hfd.key hkP) ?_
+                      refine ih f (by omega) false rest _ _ (g + 1) h2 h3 (hfd.key hkP) ?_
                       have := termZ_ge H W (termHgtRef root (childRef root par (.key name))) hC (g + 1)
                       omega
                     | str s =>
                       simp only [termKeyCont]
-                      simp only [PIdx] at hidxN
-                      refine ih f (by omega) false _ _ _ (g + 1) ?_ h2 h3 (hfd.key hkP) ?_
-                      · intro t ht
-                        simp only [List.mem_cons] at ht
-                        rcases ht with rfl | ht
-                        · exact P_bracket hidxN
-                        · exact hrest t ht
+                      refine ih f (by omega) false _ _ _ (g + 1) h2 h3 (hfd.key hkP) ?_
                       · simp only [termPot]
                         have := termTokPot_bracket H W s hC (termHgtRef root (childRef root par (.key name))) (g + 1)
                         omega
                     | cond k op v =>
                       simp only [termKeyCont]
-                      simp only [PIdx] at hidxN
-                      refine ih f (by omega) false _ _ _ (g + 1) ?_ h2 h3 (hfd.key hkP) ?_
-                      · intro t ht
-                        simp only [List.mem_cons] at ht
-                        rcases ht with rfl | ht
-                        · exact P_condTok hidxN.1 hidxN.2.1 hidxN.2.2
-                        · exact hrest t ht
+                      refine ih f (by omega) false _ _ _ (g + 1) h2 h3 (hfd.key hkP) ?_
                       · simp only [termPot]
                         have := termTokPot_bracket H W (k ++ op ++ ['\''] ++ condValStr v ++ ['\'']) hC
                           (termHgtRef root (childRef root par (.key name))) (g + 1)
